@@ -426,6 +426,11 @@ def _classify(an: Analysis, module, name, value, cls):
                     for a in value.args[1:]):
                 return 'ok', 'alias selected from a constant table'
         binding = an.p.resolve_dotted(module, value.func)
+        if binding and binding[0] == 'ext' and binding[1] in (
+                'operator.attrgetter', 'operator.itemgetter', 'operator.methodcaller') and \
+                all(isinstance(a, ast.Constant) for a in value.args) and \
+                all(isinstance(kw.value, ast.Constant) for kw in value.keywords):
+            return 'ok', 'an accessor of the operator module over constants (immutable)'
         if binding == ('ext', 'builtins.object') and not value.args and not value.keywords:
             return 'ok', 'a bare object(): a marker without any attribute to write'
         if binding[0] == 'class':
